@@ -177,7 +177,7 @@ def newLoop (X : SchemaX) (o : VOpts) (cx : Cx) : (fuel : Nat) → (done rest : 
 /-- `lyd_validate_new(first, sparent, mod, …)` for the children `sibs` of `cx.parent` -/
 def validateNew (X : SchemaX) (o : VOpts) (cx : Cx) (sibs : List DNode) : List DNode × Out :=
   let r1 := choiceRL X.base cx (levelChoices (X.kidsOf cx.parent)) sibs
-  let r2 := newLoop X o cx (r1.1.length + 1) [] r1.1 none
+  let r2 := newLoop X o cx.keysOld (r1.1.length + 1) [] r1.1 none
   (r2.1, r1.2 ++ r2.2)
 
 end LyModel.Valid
